@@ -47,6 +47,17 @@ CLAIMED = {
          "library directly, on pre-filled elements and through save()+load().",
          "Trusted: Lean kernel; the correspondence harness; CPython str/int; the save/load leg relies on C02 (XML round trip) which is checked by its own property.",
          "DESIGN.md section 4 C17"),
+ 'C10': ("Lean 4 proof: model of the reference scan (_stylerefs_of/_parseoneelement) and of the closure loop of _used_auto_styles; "
+         "kernel-decided schema-attributes-are-followed table check (translator from the .rng and by probing the code); correspondence; expat oracle",
+         "Kernel-checked for all trees: an automatic style is kept iff it is reachable from the scanned roots (kept_iff); every automatic style "
+         "reachable from the body resp. the master styles through any style-reference attribute of the shipped schema, through chains of any "
+         "length, is written to content.xml resp. styles.xml (closure_kept_content, closure_kept_styles; schema_refs_followed by decide over the "
+         "tables regenerated from the .rng and measured on the code every run), as an unchanged sub-list of the automatic styles, each at most "
+         "once (kept_sublist, kept_once, definition_unchanged). Tie: 780 random style graphs per run (5,180 thorough) model vs code; oracle: every "
+         "reference site of the saved parts resolved against the styles present in its own part after an independent parse.",
+         "Trusted: Lean kernel; harness; expat. Hypothesis WellNamed: automatic-style names contain none of the 29 characters str.split() splits at "
+         "(true of every NCName).",
+         "DESIGN.md section 4 C10"),
  'C12': ("Lean 4 proof: state-transformer model of the seven output calls, purity and repeatability by induction over call sequences; "
          "correspondence on call sequences; snapshot/infoset oracle",
          "Kernel-checked for all documents and all sequences of save/write/xml/contentxml/stylesxml/metaxml/settingsxml: the document afterwards "
